@@ -81,6 +81,8 @@ pub mod dice {
     use vstd::prelude::*;
     #[verifier::external_body]
     pub fn roll_bytes(len: usize) -> (r: Vec<u8>) ensures r@.len() == len { unimplemented!() }
+    #[verifier::external_body]
+    pub fn fill_bytes(bytes: &mut [u8]) ensures final(bytes)@.len() == old(bytes)@.len() { unimplemented!() }
 }
 
 // ---- salt replay cache (lru_time_cache behind a std Mutex): interior mutability, modelled only as an oracle
